@@ -462,5 +462,85 @@ def r7_process_global_caches(chk: Check) -> None:
                          "MEMO-KEY(process-global caches in the value generators): a module-level cache is filled in the order the worker threads reach it; if its key lacks something the cached value is computed from (a strategy built from the whole schema cached under the format name), what an operation receives depends on which operation got there first - the same with one worker, different with two", floor=0)
 
 
+MUTATORS = ("update", "pop", "popitem", "setdefault", "clear", "append", "extend", "insert", "remove", "add", "discard", "sort", "reverse", "__setitem__", "__delitem__")
+MEMO_DECOS = ("lru_cache", "cache")
+
+
+def r8_cached_result_not_mutated(chk: Check) -> None:
+    chk.rule("C13.R8", "IMMUTABLE(result of a memoised function): an object returned by an @lru_cache / @cache function is one object for the whole process; no caller stores into it, deletes from it or calls a mutating method on it, directly or through a local alias on any path (reaching definitions over the CFG) - otherwise what one run (its configuration) writes there is what every later run in the process reads, and the same seed no longer gives the same requests as a fresh process", floor=8)
+    from ..dataflow import propagate
+
+    P = chk.project
+    memo = {id(f) for f in P.all_functions() if not isinstance(f.node, ast.Lambda) and any(d.split(".")[-1] in MEMO_DECOS for d in f.decorator_names())}
+    n_calls = 0
+    for fn in P.all_functions():
+        if isinstance(fn.node, ast.Lambda):
+            continue
+        # local names that may hold the result of a memoised function
+        src: dict[str, ast.Call] = {}
+        for s_ in walk_body(fn.node):
+            if isinstance(s_, ast.Assign) and len(s_.targets) == 1 and isinstance(s_.targets[0], ast.Name) and isinstance(s_.value, ast.Call):
+                r = P.resolve_call(fn, s_.value)
+                if r and r[0] == "func" and id(r[1]) in memo:
+                    src[s_.targets[0].id] = s_.value
+                    n_calls += 1
+        if not src:
+            continue
+        aliases = set(src)
+        changed = True
+        while changed:
+            changed = False
+            for s_ in walk_body(fn.node):
+                if isinstance(s_, ast.Assign) and len(s_.targets) == 1 and isinstance(s_.targets[0], ast.Name) and s_.targets[0].id not in aliases and _may_be_alias(s_.value, aliases):
+                    aliases.add(s_.targets[0].id)
+                    changed = True
+
+        def classify(v: ast.expr) -> str:
+            if isinstance(v, ast.Call):
+                r_ = P.resolve_call(fn, v)
+                return "cached" if r_ and r_[0] == "func" and id(r_[1]) in memo else "fresh"
+            return "cached" if _may_be_alias(v, aliases) else "fresh"
+
+        g = None
+        for nm, call_ in src.items():
+            chk.ok("C13.R8", fn, f"`{nm} = {unparse(call_, 50)}` is bound to a memoised result", "mutation sites through this name or its aliases are decided separately (none reported = none found)", fn.loc(call_))
+        for x in walk_body(fn.node):
+            name = None
+            if isinstance(x, (ast.Assign, ast.AugAssign, ast.Delete)):
+                tgts = x.targets if isinstance(x, (ast.Assign, ast.Delete)) else [x.target]
+                for t_ in tgts:
+                    if isinstance(t_, ast.Subscript) and isinstance(t_.value, ast.Name) and t_.value.id in aliases:
+                        name = t_.value.id
+            elif isinstance(x, ast.Call) and isinstance(x.func, ast.Attribute) and x.func.attr in MUTATORS and isinstance(x.func.value, ast.Name) and x.func.value.id in aliases:
+                name = x.func.value.id
+            if name is None:
+                continue
+            if g is None:
+                g = cfg_of(fn)
+            states = propagate(g, name, [g.entry], ["fresh"], classify)
+            nodes = g.stmt_nodes_containing(x)
+            hit = any("cached" in states.get(nid, set()) for nid in nodes)
+            chk.decide(not hit, "C13.R8", fn, f"`{unparse(x, 60)}` does not write into a memoised result", f"on some path `{name}` is the object returned by a memoised function (one object per process) and it is modified here: configuration-dependent entries written during one run are read by every later run in this process", fn.loc(x))
+    chk.note(f"C13.R8: {len(memo)} memoised function(s), {n_calls} call(s) whose result is bound to a local name")
+    if n_calls < 8:
+        chk.undecided("C13.R8", "<discovery>", f"bound results={n_calls}", "fewer memoised results bound to local names than confirmed by hand (10)")
+    fixture = ast.parse("def f(c):\n    d = g()\n    x = d if c else {}\n    x['k'] = 1\n")
+    chk.decide(_may_be_alias(fixture.body[0].body[1].value, {"d"}), "C13.R8", "<fixture>", "positive fixture: a conditional alias of a memoised result is recognised", "matcher broken", "<fixture>")
+    if len(memo) < 10:
+        chk.undecided("C13.R8", "<discovery>", f"memoised functions={len(memo)}", "fewer memoised functions than confirmed by hand (10+)")
+
+
+def _may_be_alias(v: ast.AST | None, aliases: set[str]) -> bool:
+    if isinstance(v, ast.Name):
+        return v.id in aliases
+    if isinstance(v, ast.IfExp):
+        return _may_be_alias(v.body, aliases) or _may_be_alias(v.orelse, aliases)
+    if isinstance(v, ast.BoolOp):
+        return any(_may_be_alias(o, aliases) for o in v.values)
+    if isinstance(v, ast.NamedExpr):
+        return _may_be_alias(v.value, aliases)
+    return False
+
+
 def rules(tier: str) -> list:  # type: ignore[type-arg]
-    return [r1_entries, r2_entropy, r3_unordered, r4_seed_flow, r5_no_shared_mutation, r6_test_object_per_operation, r7_process_global_caches]
+    return [r1_entries, r2_entropy, r3_unordered, r4_seed_flow, r5_no_shared_mutation, r6_test_object_per_operation, r7_process_global_caches, r8_cached_result_not_mutated]
